@@ -760,13 +760,20 @@ THEOREMS: list[str] = [_NS + n for n in [
     "gate_current_touching_unsorted_closes",   # witness: current code shut for a whole window when touching windows are listed out of order
     "judge_sound_gate_window_strand",          # judge accepts a clock advance over waiting items => no non-empty window meets that stretch
     "judge_sound_conveyor_conservation",       # judge accepts a conveyor observation => in_transit + transported + rejected = offered so far
+    "judge_sound_no_strand_pooled_reneging",   # judge accepts a clock advance => not (waiting non-empty and in service < limit), nothing in transit / finished-undelivered
+    "judge_sound_reneging_none_lost",          # accepted finite transcript => every accepted id reached the sink, the reneged sink, or (no reneged_target) was counted as reneged
+    "judge_sound_reneging_fifo",               # accepted transcript => after every prefix the dequeued ids are an initial segment of the accepted ids, equal at the end
+    "judge_sound_pooled_none_lost",            # accepted finite transcript (downstream set) => every id answered start / wait reached the sink
+    "judge_sound_pooled_counters",             # accepted transcript => at every line available + active = pool size and active = in-service population computed from observations
 ]]
 PARTIAL_THEOREMS = {
-    _NS + "judge_sound_in_service": "soundness of the indus judge is proved for two clauses (concurrency limit, completed at most once); "
-                                    "for the batch component also no-loss / no-strand "
-                                    "(judge_sound_batch_all_completed, judge_sound_batch_overdue); the remaining clauses of the item-state partition "
-                                    "(order, counters, no strand for the other four components) are the judge's definition, evaluated on every "
-                                    "implementation transcript, not derived from an independent statement",
+    _NS + "judge_sound_in_service": "soundness of the indus judge is proved, for all transcripts, for: concurrency limit and completed at most once (all five "
+                                    "components); batch: no loss / no strand (judge_sound_batch_all_completed, judge_sound_batch_overdue); reneging: no loss, FIFO "
+                                    "dequeue order, served xor reneged, no strand (judge_sound_reneging_none_lost, _fifo, judge_sound_served_xor_reneged, "
+                                    "judge_sound_no_strand_pooled_reneging); pooled: no loss, counters, no strand (judge_sound_pooled_none_lost, _counters); gate: strand "
+                                    "against the schedule; conveyor: conservation. Still only the judge's definition (evaluated on every implementation transcript, not "
+                                    "derived from an observation-only statement): pooled start order of re-delivered items, gate / conveyor no-loss and order, the "
+                                    "counter clauses of batch / gate / reneging, patience clauses of reneging (served-after-patience / reneged-within-patience)",
     _NS + "pooled_repaired_conservation": "counting form for the repaired PooledCycleResource model only; for the current code "
                                           "pooled_current_overtakes proves the negation on a concrete schedule",
 }
